@@ -1,4 +1,4 @@
-import Invoke.Lemmas.ConfigType
+import Invoke.Lemmas.ConfigMutators
 import Invoke.Lemmas.ConfigEval
 /-! Configurations reachable by a history of reloads, navigated writes and deletions, together with
     the edits the history performed. -/
@@ -28,6 +28,9 @@ inductive Reach : Cfg → List Edit → Prop
       Reach c' (es ++ [.set (path.map Prod.fst ++ [k]) v])
   | delete {c c' : Cfg} {es : List Edit} (p : List Key) : Reach c es → p ≠ [] → c.remove p = .ok c' →
       Reach c' (es ++ [.del p])
+  | op {c c' : Cfg} {es : List Edit} (path : List Step) (sub : KVs) (o : Op) (out : Out) : Reach c es →
+      nav c.viewT path = .ok sub → OpWF o → c.apply path o = .ok (c', out) → TypeOK c' →
+      Reach c' (es ++ opEdits sub (path.map Prod.fst) o)
 
 theorem reach_inv {c : Cfg} {es : List Edit} (h : Reach c es) :
     TypeOK c ∧ jOf c = journalOf ⟨[], []⟩ es ∧ JValid ⟨[], []⟩ es := by
@@ -49,6 +52,13 @@ theorem reach_inv {c : Cfg} {es : List Edit} (h : Reach c es) :
     refine ⟨hc', ?_, ?_⟩
     · rw [hj, ih.2.1, journalOf_append]; rfl
     · apply jvalid_append _ _ _ ih.2.2
+      rw [← ih.2.1]; exact hval
+
+  | @op c c' es path sub o out _ hnav hw happ hc' ih =>
+    obtain ⟨hj, _, hval⟩ := apply_edits ih.1 path sub o hnav hw happ
+    refine ⟨hc', ?_, ?_⟩
+    · rw [hj, ih.2.1, journalOf_append]
+    · apply jvalid_append_list _ _ _ ih.2.2
       rw [← ih.2.1]; exact hval
 
 end Inv.Hist
